@@ -56,7 +56,7 @@ Proof.
     destruct t1 as [a|s1], t2 as [b|s2]; cbn [pair] in H; try discriminate.
     + destruct (lookup_l r a) as [b'|] eqn:La, (lookup_r r b) as [a'|] eqn:Lb; try discriminate.
       * destruct (N.eqb b b' && N.eqb a a') eqn:E; [|discriminate].
-        apply andb_true_iff in E as [E1 E2]. apply N.eqb_eq in E1, E2. subst.
+        apply andb_true_iff in E as [E1 E2]. apply N.eqb_eq in E1, E2. subst b a'.
         destruct (IH l2 r (pos + 1)%N r' B H) as (B' & X & M & C).
         repeat split; try apply B'; try assumption.
         -- cbn [map rename]. rewrite (X a b' La). rewrite M. reflexivity.
